@@ -1,4 +1,5 @@
 import Rtsp.Proofs.Ledger.ErrorClose
+import Rtsp.Proofs.Ledger.Release
 /-
 # C11 — the server survives hostile control connections and cleans up after them
 
@@ -87,6 +88,51 @@ theorem no_error_keeps_open (st : State) (c : Conn) (r : Req)
       ((handleRequest st c r).1, Out.rtsp c.id (handleRequest st c r).2.1 :: (handleRequest st c r).2.2.2) :=
   no_error_stays st c r h
 
+/-! ## everything tied to an ended connection is released -/
+
+/-- **The ownership invariant holds in every reachable state**, for every configuration and every
+history of events on any number of connections (`Inv`, Proofs/Ledger/Inv.lean): connection and
+session ids are unique; a session lists only open connections that point back to it; a session
+without connections is one that streams over UDP / multicast (the `chRemoveConn` rule); every UDP
+registration belongs to a live UDP session that has a media with that port; every reader slot and
+active-reader entry belongs to a live session in play mode; every write queue to a live session;
+every waiting GET channel to an open connection. -/
+theorem invariant_reachable (cfg : Config) (es : List Event) : Inv (run (init cfg) es).1 :=
+  inv_run (inv_init cfg) es
+
+/-- **Ledger empty after close.**  In a reachable state in which no connection is open (every
+hostile connection has ended, by itself or by the server), every session that is left is waiting
+for its UDP / multicast time-out, and once those time-outs have fired there is no session, no UDP
+registration, no reader slot, no write queue and no tunnel channel left. -/
+theorem ledger_empty_after_close (cfg : Config) (es : List Event) (hc : (run (init cfg) es).1.conns = []) :
+    (∀ s ∈ (run (init cfg) es).1.sessions, s.conns = [] ∧ survivesAlone s = true) ∧
+    Released (run (run (init cfg) es).1 ((run (init cfg) es).1.sessions.map fun s => Event.sessTimeout s.id)).1 :=
+  ⟨fun _ hs => (invariant_reachable cfg es).alone_survives hc hs, all_released (invariant_reachable cfg es) hc⟩
+
+/-- **A connection that has ended holds nothing**: in a reachable state in which connection `c`
+is not open, no session lists it and no tunnel channel is its; a session that is left without any
+connection streams over UDP / multicast, so its time-out is enabled … -/
+theorem closed_connection_holds_nothing (cfg : Config) (es : List Event) (c : ConnId)
+    (hc : ∀ x ∈ (run (init cfg) es).1.conns, x.id ≠ c) :
+    (∀ s ∈ (run (init cfg) es).1.sessions, c ∉ s.conns) ∧ (∀ e ∈ (run (init cfg) es).1.httpRead, e.1 ≠ c) ∧
+    ∀ s ∈ (run (init cfg) es).1.sessions, s.conns = [] → survivesAlone s = true :=
+  closed_conn_holds_nothing (invariant_reachable cfg es) c hc
+
+/-- … **and that time-out releases everything the session owns**: the session, its UDP
+registrations, its reader slot, its write queue, and the connections it still listed. -/
+theorem session_timeout_releases (cfg : Config) (es : List Event) (s : Sess)
+    (hs : s ∈ (run (init cfg) es).1.sessions) (ha : survivesAlone s = true) :
+    let st' := (step (run (init cfg) es).1 (.sessTimeout s.id)).1
+    (∀ t ∈ st'.sessions, t.id ≠ s.id) ∧ (∀ e ∈ st'.udpRtp, e.2 ≠ s.id) ∧ (∀ e ∈ st'.udpRtcp, e.2 ≠ s.id) ∧
+    (∀ x ∈ st'.readers, x ≠ s.id) ∧ (∀ x ∈ st'.active, x ≠ s.id) ∧ (∀ x ∈ st'.writers, x ≠ s.id) ∧
+    (∀ x ∈ st'.conns, x.id ∉ s.conns) :=
+  timeout_releases (invariant_reachable cfg es) hs ha
+
+/-- The tear-down of a connection keeps the invariant whatever the connection was doing — the
+step every hostile input ends in. -/
+theorem teardown_keeps_invariant (st : State) (h : Inv st) (c : Conn) (hc : c ∈ st.conns) :
+    Inv (closeConn st c).1 := inv_closeConn h hc
+
 /-! ### non-vacuity -/
 
 /-- a fresh connection, a bogus PLAY: answered 454 and closed -/
@@ -97,5 +143,37 @@ example : (step ((step (init {}) (.accept 0)).1) (.input 0 (.req { method := .pl
 example : (step ((step (init {}) (.accept 0)).1) (.input 0 (.req { method := .options }))).2 = [Out.rtsp 0 200] ∧
     ((step ((step (init {}) (.accept 0)).1) (.input 0 (.req { method := .options }))).1.conns.map (·.id)) = [0] := by
   decide
+
+
+
+/-- a UDP player that is abandoned: SETUP + PLAY over UDP, then the peer disappears.  The session
+survives its connection (one RTCP registration, one reader slot, one write queue): the hypothesis
+of `ledger_empty_after_close` holds in a state that is not empty; the time-out empties the ledger. -/
+def udpTr : Tr := { udp := true, mcast := false, secure := false, mode := 0, ports := some (5000, 5001), inter := none }
+def tcpTr : Tr := { udp := false, mcast := false, secure := false, mode := 0, ports := none, inter := some (0, 1) }
+def setupUdp : Req := { method := .setup, trs := some [udpTr], setupPath := some 0, track := some 0 }
+def setupTcp : Req := { method := .setup, trs := some [tcpTr], setupPath := some 0, track := some 0 }
+def playReq : Req := { method := .play, sess := .id 0 }
+def abandonedUdpPlayer : List Event :=
+  [.accept 0, .input 0 (.req setupUdp), .input 0 (.req playReq), .input 0 .eof]
+
+example : (run (init {}) abandonedUdpPlayer).1.conns = [] ∧
+    (run (init {}) abandonedUdpPlayer).1.sessions.length = 1 ∧
+    (run (init {}) abandonedUdpPlayer).1.udpRtcp = [(5001, 0)] ∧
+    (run (init {}) abandonedUdpPlayer).1.readers = [0] ∧ (run (init {}) abandonedUdpPlayer).1.writers = [0] := by decide
+
+example : (run (init {}) (abandonedUdpPlayer ++ [.sessTimeout 0])).1.sessions = [] ∧
+    (run (init {}) (abandonedUdpPlayer ++ [.sessTimeout 0])).1.udpRtcp = [] ∧
+    (run (init {}) (abandonedUdpPlayer ++ [.sessTimeout 0])).1.readers = [] := by decide
+
+/-- the same over TCP, with a frame while playing: the session ends with its connection -/
+example : (run (init {}) [.accept 0, .input 0 (.req setupTcp), .input 0 (.req playReq), .input 0 (.frame 7),
+      .input 0 .eof]).2
+    = [Out.connOpen 0, Out.rtsp 0 200, Out.sessOpen 0, Out.rtsp 0 200, Out.consumed 0, Out.connClose 0,
+       Out.sessClose 0] := by decide
+
+/-- a frame before PLAY closes the connection (and the session it had set up) -/
+example : (run (init {}) [.accept 0, .input 0 (.req setupTcp), .input 0 (.frame 0)]).2
+    = [Out.connOpen 0, Out.rtsp 0 200, Out.sessOpen 0, Out.connClose 0, Out.sessClose 0] := by decide
 
 end Rtsp.Ledger.C11
